@@ -210,7 +210,109 @@ def sweep(tier):
 
 
 def configs(tier):
-    return [{"fixed": False}]
+    return [{"fixed": False}, {"fixed": False}, {"fixed": False},
+            {"two_sessions": True}]
+
+
+def run_two_sessions(seed, tape, opts):
+    """Two independent dilation sessions (different keys) in one process,
+    their L2 connections coming up interleaved, each sending records in the
+    selection turn and afterwards: each manager gets exactly its own peer's
+    records, nothing of the other session's."""
+    w = World(tape, opts)
+    sim = w.sim
+    viol = []
+
+    def V(key_, clause, detail):
+        if not viol:
+            viol.append({"key": key_, "clause": clause, "detail": detail})
+    pairs = []
+    for n in range(2):
+        key = tape.blob(32, 20 + n)
+        topo = tape.pick(("direct", "reverse"), "topo2")
+        ML, MF = FakeManager(w, "L%d" % n), FakeManager(w, "F%d" % n)
+        ML.peer, MF.peer = MF, ML
+        ML.connector = MF.connector = None
+        CL = w.connector(ML, key, LEADER, None, topo == "reverse",
+                         "a%d" % n * 8)
+        CF = w.connector(MF, key, FOLLOWER, None, topo == "direct",
+                         "b%d" % n * 8)
+        recs = {}
+        for d, mg in (("l2f", ML), ("f2l", MF)):
+            mg.early = [gen_record(tape, 60 + 10 * n + i)
+                        for i in range(tape.choose(4, "nearly2"))]
+            recs[d] = list(mg.early) + [gen_record(tape, 80 + 10 * n + i)
+                                        for i in range(tape.choose(5, "nrec2"))]
+        pairs.append({"ML": ML, "MF": MF, "CL": CL, "CF": CF, "recs": recs,
+                      "sent": {"l2f": len(ML.early), "f2l": len(MF.early)},
+                      "started": False})
+
+    def app_events():
+        evs = []
+        for i, pr in enumerate(pairs):
+            if not pr["started"]:
+                def start(pr=pr):
+                    pr["started"] = True
+                    pr["CL"].start()
+                    pr["CF"].start()
+                evs.append(("start:%d" % i, start))
+                continue
+            for d, tx in (("l2f", pr["ML"]), ("f2l", pr["MF"])):
+                if tx.conn is not None and pr["sent"][d] < len(pr["recs"][d]):
+                    def send(pr=pr, d=d, tx=tx):
+                        r = pr["recs"][d][pr["sent"][d]]
+                        pr["sent"][d] += 1
+                        tx.conn.send_record(r)
+                    evs.append(("send:%d:%s" % (i, d), send))
+        return evs
+    sim.app_events = app_events
+
+    def oracle():
+        for i, pr in enumerate(pairs):
+            for d, mgr in (("l2f", pr["MF"]), ("f2l", pr["ML"])):
+                got = mgr.records
+                want = pr["recs"][d]
+                if got != want[:len(got)]:
+                    j = next((j for j in range(len(got)) if j >= len(want) or
+                              got[j] != want[j]), len(got))
+                    V("C12.record_differs", "every record handed to an L2 "
+                      "connection is recovered identically by the peer (and "
+                      "nothing else reaches the manager)",
+                      "session %d %s record %d: got %s, its peer sent %s" %
+                      (i, d, j, _short(got[j]),
+                       _short(want[j]) if j < len(want) else None))
+                    return
+
+    def complete():
+        return all(pr["started"] and pr["ML"].made and pr["MF"].made and
+                   all(pr["sent"][d] >= len(pr["recs"][d]) for d in
+                       pr["sent"]) for pr in pairs) and \
+            not any(len(e.inflight) for l in sim.net.links for e in l.ends)
+    sim.after_step = oracle
+    sim.run(30000, until=lambda: bool(viol) or complete(), max_time=100)
+    sim.run(500, max_time=5)
+    oracle()
+    if not viol:
+        for i, pr in enumerate(pairs):
+            if not (pr["ML"].made and pr["MF"].made):
+                V("C12.no_connection", "an unmanipulated pair completes the "
+                  "L2 handshake", "session %d" % i)
+            for d, mgr in (("l2f", pr["MF"]), ("f2l", pr["ML"])):
+                if mgr.records != pr["recs"][d]:
+                    V("C12.incomplete", "without manipulation every record "
+                      "arrives", "session %d %s: %d of %d" %
+                      (i, d, len(mgr.records), len(pr["recs"][d])))
+    w.log.stop()
+    sim.note("probe.two_sessions_in_one_process")
+    return {"violation": viol[0] if viol else None, "nontrivial": True,
+            "digest": sim.hexdigest(), "trace": sim.trace,
+            "stats": {"steps": sim.steps, "sim_s": sim.now() - 1000.0,
+                      "notes": sim.notes},
+            "sample": {"seed": seed, "two_sessions": True,
+                       "records": [{d: [_short(r) for r in pr["recs"][d]][:6]
+                                    for d in pr["recs"]} for pr in pairs],
+                       "delivered": [[len(pr["MF"].records),
+                                      len(pr["ML"].records)] for pr in pairs]}}
 
 
 class Junk(protocol.Protocol):
@@ -233,6 +335,8 @@ class JunkFactory(protocol.ClientFactory):
 
 
 def run_one(seed, tape, opts):
+    if opts.get("two_sessions"):
+        return run_two_sessions(seed, tape, opts)
     w = World(tape, opts)
     sim = w.sim
     key = tape.blob(32, 5)
